@@ -302,14 +302,29 @@ def sessExpected (m : Manager Content) (u : Str) (script : List SessTok) (impl :
   `C15.session_user_is_login_rewrite`, …); what the server decides apart from the plugins (token check,
   proxy registration, the random run id) is taken over from the implementation.  Per step the requests
   the plugin server received and whether the peer saw the operation go on are judged by
-  `C15.siteHoldsOn` (Login / NewUserConn: the address member is not compared). -/
+  `C15.siteHoldsOn` (Login / NewUserConn: the address member is not compared).
+
+  The heartbeat: a `P` result carries whether the session's `lastPing` moved (`+` / `=`, read through
+  `Service.VerifAuthSessions`), judged by `C15.pingHoldsOn` (a Ping counts only if the chain passed).  A
+  history may set the heartbeat timeout (`Z:<s>`) and let real time pass (`W:<ds>`, on an absolute schedule
+  kept by the harness to within `hbSlack`); the model clock is `PluginSite.Srv.now` in deciseconds.  A
+  session whose last counted heartbeat is `since` old must be alive while `since + hbSlack ≤ timeout`, must
+  have been ended by its heartbeat worker when `since > timeout + hbPeriod + hbSlack` (`C15.expiryHoldsOn`
+  on the implementation's own answer; `C15.unrenewed_session_is_dropped`), in between the observation is
+  taken over. -/
 
 inductive HRid
   | e | f (r : Str) | s (i : Nat)
 
 inductive HistTok
   | L (rid : HRid) (user : Str) | X (i : Nat) | F (id : Nat) (b : Beh)
-  | N (i : Nat) (name : Str) | P (i : Nat) | C (k : Nat)
+  | N (i : Nat) (name : Str) | P (i : Nat) (key : Str) | C (k : Nat)
+  | Z (sec : Nat) | A | W (ds : Nat)
+
+/-- the period of the heartbeat worker (`wait.Until(…, time.Second, …)`, `C15.code_ping_store_gated`) and the
+    tolerance of the harness' schedule, in deciseconds -/
+def hbPeriod : Nat := 10
+def hbSlack : Nat := 5
 
 def parseHistTok (t : String) : Option HistTok :=
   match t.splitOn ":" with
@@ -332,8 +347,15 @@ def parseHistTok (t : String) : Option HistTok :=
     let i ← i.toNat?
     let n ← unhx n
     pure (.N i n)
-  | ["P", i] => i.toNat?.map .P
+  | ["P", i] => i.toNat?.map (.P · [])
+  | ["P", i, k] => do
+    let i ← i.toNat?
+    let k ← unhx k
+    pure (.P i k)
   | ["C", k] => k.toNat?.map .C
+  | ["Z", n] => n.toNat?.map .Z
+  | ["A"] => some .A
+  | ["W", d] => d.toNat?.map .W
   | _ => none
 
 def flipList (id : Nat) (b : Beh) (l : List (Plugin Content)) : List (Plugin Content) :=
@@ -391,7 +413,9 @@ def evWire (e : PluginSite.Ev Content) (name : String) (blank : Bool) : List Str
 def HAcc.push (a : HAcc) (out : String) (wire : List String) (propStep : Bool) (ref : Option (Nat × Str) := none) : HAcc :=
   { a with outs := a.outs ++ [out], wires := a.wires ++ [if wire.isEmpty then "-" else "+".intercalate wire],
            byStep := a.byStep ++ [ref],
-           prop := a.prop && (!a.judge || propStep),
+           -- `!…`: the heartbeat clock of a session moved in a step that was not a Ping of it
+           -- (`C15.lastPing_only_through_gate`); the model never says so
+           prop := a.prop && (!a.judge || (propStep && !(a.obsO.headD "?").contains '!')),
            judge := a.judge && out == a.obsO.headD "?",
            obsO := a.obsO.drop 1, obsW := a.obsW.drop 1 }
 
@@ -400,10 +424,57 @@ def histIsPanic (e : PluginSite.Ev Content) : Bool :=
   | .panic => true
   | _ => false
 
+inductive ExpCls
+  | live | maybe | must
+  deriving DecidableEq
+
+/-- what the heartbeat worker of `c` may / must have done by now -/
+def expClass (s : PluginSite.Srv) (c : PluginSite.Ctl) : ExpCls :=
+  let since := s.now - c.lastPing
+  if s.hb = 0 || since + hbSlack ≤ s.hb then .live
+  else if since > s.hb + hbPeriod + hbSlack then .must
+  else .maybe
+
+/-- the session on slot `i` is ended by its heartbeat worker (inside the slack window the run of the worker
+    that the implementation made may be a little ahead of the model clock: then it is a closed connection) -/
+def dropSlot (m : Manager Content) (s : PluginSite.Srv) (i : Nat) (c : PluginSite.Ctl) : PluginSite.Srv :=
+  (PluginSite.step PluginSite.encContent m s (if s.expired c then .hbCheck i else .connClosed i)).1
+
+/-- before an operation on slot `i`: did the heartbeat worker end that session?  `gone`: the peer found the
+    connection closed.  some (state after the drop, `C15.expiryHoldsOn` on the observation) -/
+def HAcc.expire (a : HAcc) (i : Nat) (gone : Bool) : Option (PluginSite.Srv × Bool) :=
+  match a.srv.bySlot i with
+  | none => none
+  | some c =>
+    let cls := expClass a.srv c
+    if cls = .must || (cls = .maybe && gone) then
+      some (dropSlot a.mgr a.srv i c,
+        C15.expiryHoldsOn a.srv.hb hbPeriod hbSlack (a.srv.now - c.lastPing) (!gone))
+    else none
+
+def parseGone (o : String) : List Nat :=
+  if o.startsWith "g" then ((o.drop 1).toString.splitOn "+").filterMap (·.toNat?) else []
+
 def histStep (a : HAcc) (t : HistTok) : HAcc :=
-  let o := a.obsO.headD "?"
+  let o := ((a.obsO.headD "?").splitOn "!").headD "?"
   let w := a.obsW.headD "-"
   match t with
+  | .Z sec => { a.push "-" [] true with srv := { a.srv with hb := sec * 10 } }
+  | .A => a.push "-" [] true
+  | .W d =>
+    let srv := (PluginSite.step PluginSite.encContent a.mgr a.srv (.tick d)).1
+    let obsGone := parseGone o
+    let a := { a with srv := srv }
+    let (a, gone, prop) := (List.range a.slots.length).foldl (fun (acc : HAcc × List Nat × Bool) i =>
+      let (a, gone, prop) := acc
+      match a.slots[i]? with
+      | some sl =>
+        if !sl.usable then acc else
+        match a.expire i (obsGone.contains i) with
+        | some (srv', p) => ({ a with srv := srv' }, gone ++ [i], prop && p)
+        | none => acc
+      | none => acc) (a, [], true)
+    a.push (if gone.isEmpty then "-" else "g" ++ "+".intercalate (gone.map toString)) [] prop
   | .F id b => { a.push "-" [] true with mgr := flipMgr a.mgr id b }
   | .X i =>
     match a.slots[i]? with
@@ -435,6 +506,12 @@ def histStep (a : HAcc) (t : HistTok) : HAcc :=
     match a.slots[i]? with
     | some sl =>
       if !sl.usable then a.push "dead" [] true else
+      match a.expire i (o == "closed") with
+      | some (srv', p) =>
+        -- the message may have been on its way through the chain when the server hung up: whatever
+        -- the plugin server still received of it is taken over
+        { a.push "closed" (if w == "-" then [] else [w]) p with srv := srv' }
+      | none =>
       let r := PluginSite.step PluginSite.encContent a.mgr a.srv (.newProxy i name (o != "no"))
       match r.2 with
       | [] => a.push "closed" [] true                      -- that session was replaced: the server hung up
@@ -449,16 +526,28 @@ def histStep (a : HAcc) (t : HistTok) : HAcc :=
         { a.push out (evWire e "NewProxy" false) (evHolds e "NewProxy" false w (o.startsWith "ok:") && nameOk)
             (if e.proceeded then some (i, regName) else none) with srv := r.1 }
     | none => a.push "dead" [] true
-  | .P i =>
+  | .P i key =>
     match a.slots[i]? with
     | some sl =>
       if !sl.usable then a.push "dead" [] true else
-      let r := PluginSite.step PluginSite.encContent a.mgr a.srv (.ping i)
+      match a.expire i (o == "closed") with
+      | some (srv', p) =>
+        -- the message may have been on its way through the chain when the server hung up: whatever
+        -- the plugin server still received of it is taken over
+        { a.push "closed" (if w == "-" then [] else [w]) p with srv := srv' }
+      | none =>
+      -- VerifyPing (after the chain) is taken over: a Pong with an error after a consenting chain
+      let r := PluginSite.step PluginSite.encContent a.mgr a.srv (.ping i key (!o.startsWith "no"))
       match r.2 with
       | [] => a.push "closed" [] true
       | e :: _ =>
         if histIsPanic e then { a with panics := true } else
-        a.push (if e.proceeded then "ok" else "no") (evWire e "Ping" false) (evHolds e "Ping" false w (o == "ok"))
+        -- `+`: the heartbeat was counted (`lastPing.Store`: the model does it exactly when it proceeds)
+        let out := if e.proceeded then "ok+" else "no="
+        let prop := match parseStepWire "Ping" w with
+          | some cons => C15.pingHoldsOn id e.chain e.offered (o.startsWith "ok") (o.endsWith "+") cons
+          | none => false
+        { a.push out (evWire e "Ping" false) prop with srv := r.1 }
     | none => a.push "dead" [] true
   | .C k =>
     match (a.byStep[k]?).join with
@@ -493,7 +582,8 @@ def histExpected (m : Manager Content) (script : List HistTok) (impl : String) :
   let (obsO, obsW) := match impl.splitOn " | " with
     | [r, w] => (((r.drop 2).toString).splitOn ",", w.splitOn ";")
     | _ => ([], [])
-  let acc := script.foldl histStep ({ mgr := m, obsO := obsO, obsW := obsW } : HAcc)
+  -- transport.heartbeatTimeout of a server without tcpMux: 90 s unless the history sets it (`Z`)
+  let acc := script.foldl histStep ({ srv := { hb := 900 }, mgr := m, obsO := obsO, obsW := obsW } : HAcc)
   if acc.panics then none else
   some ("H=" ++ ",".intercalate acc.outs ++ " | " ++ ";".intercalate acc.wires, acc.prop)
 
